@@ -12,6 +12,7 @@ From Coq Require Import List NArith Bool.
 From V.gen Require Consts.
 From V.C03 Require Import Model Msg Proofs UviProofs LsProofs WebRtc WebRtcProofs Fallback.
 From V.C03 Require Import MsgRef MsgProofs MsgInv Chan Dir SimD SimL SimSys BytesThm LazyThm.
+From V.C03 Require Import Work Work2 Live.
 Import ListNotations.
 Open Scope N_scope.
 
@@ -196,6 +197,36 @@ Theorem C03_bytes_run_correct :
   end.
 Proof. exact run_sys_correct. Qed.
 Print Assumptions C03_bytes_run_correct.
+
+(* ---- byte-level termination *)
+(* A potential (buffered bytes, bytes in the pipes, remaining script entries, remaining names,
+   phase ranks) never increases under a poll and strictly decreases unless the polled task is
+   blocked and nothing at all changed. This needs no invariant: it holds in every state. *)
+Theorem C03_bytes_poll_work :
+  forall b s, WfS s ->
+  WfS (poll_side b s) /\ Phi (poll_side b s) <= Phi s /\
+  (Phi (poll_side b s) = Phi s -> poll_side b s = s /\ Blocked b s).
+Proof. exact poll_work. Qed.
+Print Assumptions C03_bytes_poll_work.
+
+(* two blocked tasks are two finished tasks: no reachable state of a well-formed V1 case is
+   stuck short of completion *)
+Theorem C03_bytes_no_deadlock :
+  forall ds ls, Forall wfn ds -> forall s m, Sim ds ls s m ->
+  Blocked false s -> Blocked true s ->
+  t_done (s_d s) = true /\ t_done (s_l s) = true.
+Proof. exact no_deadlock. Qed.
+Print Assumptions C03_bytes_no_deadlock.
+
+(* both sides terminate: under every fair poll sequence (K blocks, each polling both sides at
+   least once, K above the initial potential), any chunking and any Pending injection, both
+   tasks finish - and then C03_bytes_transparent / the result theorems apply *)
+Theorem C03_bytes_terminate :
+  forall c, wf_case c -> forall K who,
+  fair K who -> Phi (sys_init c) < N.of_nat K ->
+  t_done (s_d (polls who (sys_init c))) = true /\ t_done (s_l (polls who (sys_init c))) = true.
+Proof. exact bytes_terminate. Qed.
+Print Assumptions C03_bytes_terminate.
 
 (* ---- the optimistic variant (V1Lazy), dialer side *)
 (* byte level: with a single name the future settles on its first poll, header and proposal
